@@ -4,6 +4,6 @@ PARTIAL = ["chains of 2-3 hops are covered by the C07 chain family's real client
 
 
 def run(tier, seed, replay):
-    return runner.run_trace_property("C18", sysprops.families("C18", ('cli', 'srv')), tier, seed, replay,
+    return runner.run_trace_property("C18", sysprops.families("C18", ('cli', 'srv', 'chain')), tier, seed, replay,
                                      assumptions=sysprops.COMMON_ASSUMPTIONS + ['no tracing subscriber installed (the OpenTelemetry branch of trace derivation is not modelled)'], partial=PARTIAL,
                                      signatures=sysprops.SIGNATURES)
